@@ -110,6 +110,14 @@ def custom(ctx):
         floor = 0.9
         if ans.count("wt") < floor * max(1, len(reqs) - ans.count("unsupported")):
             ctx.broken.append("coverage: fewer than 90% of the explored well-typed programs satisfy the theorems' hypotheses")
+    # the same for the vector layer (hypotheses of gen_sem_vec_expr: VIr.typeOf + VIr.litOK)
+    vreqs = [r for r in ctx.distinct if r.startswith("C01.vex\t") and r.split("\t")[2] != "-" and r.split("\t")[4] != "-"]
+    if vreqs:
+        ans = ctx.run_model(["C01.vwt" + r[len("C01.vex"):] for r in vreqs])
+        ctx.extra["vector_theorem_hypotheses"] = {"requests": len(vreqs), "wt": ans.count("wt"), "not_wt": ans.count("not-wt"),
+                                                  "outside_layer": ans.count("unsupported")}
+        if ans.count("wt") < 0.9 * max(1, len(vreqs) - ans.count("unsupported")):
+            ctx.broken.append("coverage: fewer than 90% of the explored vector expressions satisfy gen_sem_vec_expr's hypotheses")
 
 
 def _esc(src):
